@@ -392,7 +392,7 @@ func TestC17Registry(t *testing.T) {
 				if keyed {
 					if viaOption {
 						// the module-option form of the same removal (godi.RemoveKeyed[T](key))
-						if err := coll.AddModules(removeOption(ty, true)); err != nil {
+						if err := coll.AddModules(removeOption(ty, true, "a")); err != nil {
 							f = fail("C17", "remove", "option-error", "AddModules(RemoveKeyed[%s](a)) returned %v", kit.TypeName(ty), err)
 						}
 					} else {
@@ -411,7 +411,7 @@ func TestC17Registry(t *testing.T) {
 						continue
 					}
 					if viaOption {
-						if err := coll.AddModules(godi.NewModule("rm", removeOption(ty, false))); err != nil {
+						if err := coll.AddModules(godi.NewModule("rm", removeOption(ty, false, nil))); err != nil {
 							f = fail("C17", "remove", "option-error", "AddModules(Remove[%s]()) returned %v", kit.TypeName(ty), err)
 						}
 					} else {
